@@ -988,7 +988,14 @@ func (c *ccComp) stress(seed int64, G, rounds int, mode string) (verdict string)
 						case x < 30:
 							doAdd(univ(r))
 						case x < 50:
-							doDel(ccLit(r, 2))
+							q := ccLit(r, 2)
+							if r.Intn(3) == 0 {
+								q[0] = "*" // reaches every node through the enumerate arm entered at the root
+							}
+							if r.Intn(8) == 0 {
+								q = nil
+							}
+							doDel(q)
 						case x < 80:
 							if len(hsnap) > 0 {
 								doHupd(hsnap[r.Intn(len(hsnap))])
@@ -1006,7 +1013,10 @@ func (c *ccComp) stress(seed int64, G, rounds int, mode string) (verdict string)
 				case "d15":
 					// directed: Leaf.Update through retained handles while an ancestor is deleted
 					if g == 0 {
-						doDel([]string{"a"})
+						// by an exact first element, and through the enumerate-all-children arm entered at
+						// the root (whole tree, leading wildcards): every node below the root is read under
+						// its own lock whichever arm reaches it
+						doDel([][]string{{"a"}, {}, {"*"}, {"*", "*"}, {"a", "*"}}[round%5])
 					} else {
 						for i := 0; i < 200 && len(hsnap) > 0; i++ {
 							doHupd(hsnap[(g+i)%len(hsnap)])
